@@ -143,6 +143,14 @@ def _classes() -> dict:
             return super().keypress(size, key)
 
         def create_pop_up(self):
+            sess = holder[0]
+            if sess.scen.get("run_seed", 0) % 2 == 0:
+                # half of the sessions keep their pop-up (a cached menu or dialog) and show the same object again
+                if getattr(self, "_kept", None) is None or self._kept_for is not sess:
+                    self._kept, self._kept_for = PopRec(self), sess
+                else:
+                    sess.res.probe("same_popup_object_opened_again")
+                return self._kept
             return PopRec(self)
 
         def get_pop_up_parameters(self):
@@ -864,7 +872,7 @@ class SessionEngine(Engine):
         "real": ["MainLoop", "_posix_raw_display.Screen", "six event loops", "widgets (Frame/ListBox/Edit/Button/...)", "PopUpTarget"],
         "stub": ["tty + termios list", "resize socket pair", "os.pipe for watch_pipe", "selectors/poller/asyncio step/trio fd wait", "clock", "terminal (RefTerm)"],
     }
-    required_probes = ("restoration_checked", "order_checked", "redraw_checked_at_wait", "block_with_resize_pending", "popup_opened", "input_routed_to_open_popup", "root_widget_replaced_from_handler", "input_after_root_swap_in_same_batch", "widget_returned_a_different_key", "second_run_of_the_same_mainloop", "process_suspended", "key_with_unselectable_topmost_widget")
+    required_probes = ("restoration_checked", "order_checked", "redraw_checked_at_wait", "block_with_resize_pending", "popup_opened", "input_routed_to_open_popup", "root_widget_replaced_from_handler", "input_after_root_swap_in_same_batch", "widget_returned_a_different_key", "second_run_of_the_same_mainloop", "process_suspended", "key_with_unselectable_topmost_widget", "same_popup_object_opened_again")
     selftest_n = 240
     reducible = ("events",)
 
